@@ -276,6 +276,9 @@ func (d *TD) resolveOp(o Op) (Op, bool) {
 		o.IDs = ids
 		o.Gc = d.table().State.GameCount + 1
 	}
+	if o.Op == "setup" && o.Gc == 0 {
+		o.Gc = d.table().State.GameCount + 1
+	}
 	return o, true
 }
 
